@@ -25,11 +25,14 @@ impl<'a, T> Park<'a, T> {
     fn new(queue: &'a InnerQueue<T>) -> Park<'a, T> {
         Park {
             queue,
-            wait_kernel: AtomicBool::new(true),
+            // only set once the kernel (`subscribe`) is really entered, a
+            // canceled coroutine skips it and must not spin in `drop`
+            wait_kernel: AtomicBool::new(false),
         }
     }
 
     fn delay_drop(&self) -> DropGuard<'_, '_, T> {
+        self.wait_kernel.store(true, Ordering::Relaxed);
         DropGuard(self)
     }
 }
@@ -55,7 +58,7 @@ impl<T> EventSource for Park<'_, T> {
     // register the coroutine to the park
     fn subscribe(&mut self, co: CoroutineImpl) {
         // the queue could dropped if unpark by other thread
-        let _g = self.delay_drop();
+        let g = self.delay_drop();
         // register the coroutine
         let wait_co = &self.queue.wait_co;
         wait_co.store(Blocker::new_coroutine(co));
@@ -68,6 +71,9 @@ impl<T> EventSource for Park<'_, T> {
         // or our swap synchronizes with it and we see their write below.
         if !self.queue.queue.is_empty() || self.queue.channels.load(Ordering::Acquire) == 0 {
             if let Some(co) = wait_co.take() {
+                // we own the coroutine again and don't touch the park any more,
+                // a canceled coroutine can't yield back to let us finish
+                drop(g);
                 run_coroutine(co.into_coroutine());
             }
             // return;
